@@ -464,7 +464,7 @@ func jpfContains(arguments []interface{}) (interface{}, error) {
 		return false, nil
 	}
 	// Otherwise this is a generic contains for []interface{}
-	general := search.([]interface{})
+	general := toSlice(search)
 	for _, item := range general {
 		if objsEqual(item, el) {
 			return true, nil
@@ -485,7 +485,7 @@ func jpfMap(arguments []interface{}) (interface{}, error) {
 	intr := arguments[0].(*treeInterpreter)
 	exp := arguments[1].(expRef)
 	node := exp.ref
-	arr := arguments[2].([]interface{})
+	arr := toSlice(arguments[2])
 	mapped := make([]interface{}, 0, len(arr))
 	for _, value := range arr {
 		current, err := intr.Execute(node, value)
@@ -540,7 +540,7 @@ func jpfMerge(arguments []interface{}) (interface{}, error) {
 }
 func jpfMaxBy(arguments []interface{}) (interface{}, error) {
 	intr := arguments[0].(*treeInterpreter)
-	arr := arguments[1].([]interface{})
+	arr := toSlice(arguments[1])
 	exp := arguments[2].(expRef)
 	node := exp.ref
 	if len(arr) == 0 {
@@ -634,7 +634,7 @@ func jpfMin(arguments []interface{}) (interface{}, error) {
 
 func jpfMinBy(arguments []interface{}) (interface{}, error) {
 	intr := arguments[0].(*treeInterpreter)
-	arr := arguments[1].([]interface{})
+	arr := toSlice(arguments[1])
 	exp := arguments[2].(expRef)
 	node := exp.ref
 	if len(arr) == 0 {
@@ -744,7 +744,7 @@ func jpfSort(arguments []interface{}) (interface{}, error) {
 }
 func jpfSortBy(arguments []interface{}) (interface{}, error) {
 	intr := arguments[0].(*treeInterpreter)
-	arr := arguments[1].([]interface{})
+	arr := toSlice(arguments[1])
 	exp := arguments[2].(expRef)
 	node := exp.ref
 	if len(arr) == 0 {
@@ -792,7 +792,7 @@ func jpfReverse(arguments []interface{}) (interface{}, error) {
 		}
 		return string(r), nil
 	}
-	items := arguments[0].([]interface{})
+	items := toSlice(arguments[0])
 	length := len(items)
 	reversed := make([]interface{}, length)
 	for i, item := range items {
